@@ -14,7 +14,7 @@ import (
 // arguments, the executor knows nothing about the PRNG.
 
 var netFaultKinds = []string{"net.bitflip", "net.bytesub", "net.multi", "net.truncate", "net.extend",
-	"net.splice", "net.hdr", "net.leninflate", "net.concat"}
+	"net.splice", "net.hdr", "net.leninflate", "net.concat", "net.tree"}
 
 // hdr variants
 const (
@@ -95,6 +95,24 @@ func applyNetFault(tok []byte, op Op, donor []byte) ([]byte, bool) {
 		}
 		out[i] = nb
 		return out, true
+	case "net.tree":
+		// the signed payload is edited as a CBOR tree (no re-signing): another value, a
+		// re-typed or re-encoded value, pairs added / dropped / reordered
+		p, ok := splitSign1(out)
+		if !ok || !p.PayloadIsBstr {
+			return out, false
+		}
+		var np []byte
+		var fired bool
+		if op.C > 0 {
+			np, fired = applyRetypeFault(p.Payload, op.A, op.C-1)
+		} else {
+			np, fired = applyTreeFault(p.Payload, op.A, op.B)
+		}
+		if !fired || bytes.Equal(np, p.Payload) {
+			return out, false
+		}
+		return assembleSign1(p.Prot, out[p.UnprotOff:p.UnprotEnd], np, p.Sig), true
 	case "net.multi":
 		if len(out) == 0 || len(op.X) == 0 {
 			return out, false
@@ -316,6 +334,12 @@ func genNetFault(r *Rng, kinds []string, nSlots int) Op {
 		op.A = r.Intn(hdrVariants)
 		op.B = r.Intn(8)
 		op.C = r.Intn(64)
+	case "net.tree":
+		op.A = r.Intn(1 << 12)
+		op.B = r.Intn(1 << 12)
+		if r.Chance(1, 2) {
+			op.C = 1 + r.Intn(retypeVariants) // re-typing / re-encoding of one item that keeps its content
+		}
 	case "net.leninflate":
 		op.A = r.Intn(64)
 		op.B = r.Intn(len(inflateSizes))
@@ -480,6 +504,100 @@ func applyTreeFault(payload []byte, a, b int) ([]byte, bool) {
 		r = append(r, payload[p:]...)
 		return r, true
 	}
+}
+
+const retypeVariants = 8
+
+// applyRetypeFault changes HOW one item of a well-formed CBOR tree is written
+// while keeping what it carries: byte string <-> text string, 0/1 <-> false/true,
+// unsigned <-> negative, a wider (non-minimal) head, two map pairs swapped, an
+// unknown pair appended, a tag in front. Node A, variant V.
+func applyRetypeFault(payload []byte, a, v int) ([]byte, bool) {
+	var hs []cborHead
+	end, err := walkItem(payload, 0, 0, &hs)
+	if err != nil || end != len(payload) || len(hs) == 0 {
+		return payload, false
+	}
+	// look for a node the variant applies to, starting at A
+	for k := 0; k < len(hs); k++ {
+		h := hs[(abs(a)+k)%len(hs)]
+		iend, err := walkItem(payload, h.Off, 0, nil)
+		if err != nil {
+			return payload, false
+		}
+		out := append([]byte{}, payload...)
+		switch v % retypeVariants {
+		case 0: // bstr <-> tstr
+			if (h.Major == 2 || h.Major == 3) && h.Info != 31 {
+				out[h.Off] ^= 0x20
+				return out, true
+			}
+		case 1: // 0/1 -> false/true, false/true -> 0/1
+			if h.Major == 0 && h.HLen == 1 && h.Arg <= 1 {
+				out[h.Off] = 0xf4 + byte(h.Arg)
+				return out, true
+			}
+			if h.Major == 7 && (payload[h.Off] == 0xf4 || payload[h.Off] == 0xf5) {
+				out[h.Off] = payload[h.Off] - 0xf4
+				return out, true
+			}
+		case 2: // unsigned <-> negative
+			if h.Major == 0 || h.Major == 1 {
+				out[h.Off] ^= 0x20
+				return out, true
+			}
+		case 3, 4: // the same head, written wider than needed
+			if h.Major <= 5 && h.Info != 31 && h.HLen < 9 {
+				w := map[int]int{1: 1, 2: 2, 3: 4, 5: 8}[h.HLen] // argument bytes of the next wider form
+				if v%retypeVariants == 4 {
+					w = 8
+				}
+				nh := encodeHeadW(h.Major, h.Arg, w)
+				if len(nh) != h.HLen {
+					r := append([]byte{}, payload[:h.Off]...)
+					r = append(r, nh...)
+					return append(r, payload[h.Off+h.HLen:]...), true
+				}
+			}
+		case 5: // swap the first two pairs of a definite-length map
+			if h.Major == 5 && h.Info != 31 && h.Arg >= 2 && h.Arg < 1000 {
+				p := h.Off + h.HLen
+				e1, err1 := walkItem(payload, p, 0, nil)
+				if err1 != nil {
+					return payload, false
+				}
+				e1, err1 = walkItem(payload, e1, 0, nil)
+				if err1 != nil {
+					return payload, false
+				}
+				e2, err2 := walkItem(payload, e1, 0, nil)
+				if err2 != nil {
+					return payload, false
+				}
+				e2, err2 = walkItem(payload, e2, 0, nil)
+				if err2 != nil {
+					return payload, false
+				}
+				r := append([]byte{}, payload[:p]...)
+				r = append(r, payload[e1:e2]...)
+				r = append(r, payload[p:e1]...)
+				return append(r, payload[e2:]...), true
+			}
+		case 6: // one more pair under a key nobody knows
+			if h.Major == 5 && h.Info != 31 && h.Arg < 1000 {
+				r := append([]byte{}, payload[:h.Off]...)
+				r = append(r, encodeHead(5, h.Arg+1)...)
+				r = append(r, payload[h.Off+h.HLen:iend]...)
+				r = append(r, 0x3a, 0x00, 0x98, 0x96, 0x7f, 0x01) // -10000000: 1
+				return append(r, payload[iend:]...), true
+			}
+		default: // a tag in front of the item
+			r := append([]byte{}, payload[:h.Off]...)
+			r = append(r, 0xd9, 0xd9, 0xf7) // self-described CBOR
+			return append(r, payload[h.Off:]...), true
+		}
+	}
+	return payload, false
 }
 
 // applyManyMembers adds n tiny distinct members to the top-level map of a
